@@ -476,6 +476,53 @@ func genPomCase(t *rapid.T, col *ev.Collector) *pomCase {
 		}
 	}
 
+	// a property name defined in several scopes at once: in the (default-active) profile of
+	// the dependency that uses it, and also in another profile (before or after it), at
+	// project level, in the local parent, or in a profile of the local parent. The
+	// definition in force for the dependency is the one of its own profile.
+	forced := map[string]bool{}
+	if chance(t, "multi_scope_property", 1, 4) {
+		g.n++
+		name := fmt.Sprintf("scoped.version%d", g.n)
+		lit := rapid.SampledFrom([]string{"${" + name + "}", "${" + name + "}", "1.${" + name + "}", "${" + name + "}.Final"}).Draw(t, "ms_form")
+		grp, art := g.coord()
+		own := pomProfile{ID: fmt.Sprintf("scoped-%d", g.n), Active: true,
+			Props: []pomProp{{Name: name, Val: rapid.SampledFrom([]string{"3", "4.5", "1.0"}).Draw(t, "ms_val")}}}
+		user := pomDep{G: grp, A: art, Ver: lit}
+		if chance(t, "ms_in_mgmt", 1, 4) {
+			own.HasMgmt, own.Mgmt = true, []pomDep{user}
+		} else {
+			own.Deps = []pomDep{user}
+		}
+		forced[grp+":"+art] = true
+		other := func(id string) pomProfile {
+			p := pomProfile{ID: id, Props: []pomProp{{Name: name, Val: rapid.SampledFrom([]string{"7", "8.1", "2.0"}).Draw(t, "ms_other_val")}}}
+			if rapid.Bool().Draw(t, "ms_other_user") {
+				og, oa := g.coord()
+				p.Deps = []pomDep{{G: og, A: oa, Ver: "${" + name + "}"}}
+			}
+			return p
+		}
+		// at least one other scope; bit 0 = a later profile (the most common one)
+		mask := rapid.IntRange(1, 31).Draw(t, "ms_scopes")
+		if mask&2 != 0 {
+			child.Profiles = append(child.Profiles, other(fmt.Sprintf("scoped-%d-before", g.n)))
+		}
+		child.Profiles = append(child.Profiles, own)
+		if mask&1 != 0 {
+			child.Profiles = append(child.Profiles, other(fmt.Sprintf("scoped-%d-after", g.n)))
+		}
+		if mask&4 != 0 {
+			child.Props = append(child.Props, pomProp{Name: name, Val: "9.9"})
+		}
+		if g.hasPar && mask&8 != 0 {
+			g.files[1].Props = append(g.files[1].Props, pomProp{Name: name, Val: "6.6"})
+		}
+		if g.hasPar && mask&16 != 0 {
+			g.files[1].Profiles = append(g.files[1].Profiles, other(fmt.Sprintf("scoped-%d-parent", g.n)))
+		}
+	}
+
 	g.layout(child)
 	if g.hasPar {
 		g.layout(g.files[1])
@@ -499,7 +546,11 @@ func genPomCase(t *rapid.T, col *ev.Collector) *pomCase {
 		if !s.visible && (strings.Contains(s.verLit, "${") || s.file == 1) {
 			continue // the suggester never proposes these
 		}
-		if !chance(t, "update", 1, 3) {
+		if forced[s.name()] {
+			if !chance(t, "update_forced", 7, 8) {
+				continue
+			}
+		} else if !chance(t, "update", 1, 3) {
 			continue
 		}
 		cur, err := an.interp(s)
